@@ -1,7 +1,7 @@
 (* Props/C17.v — History and status tell the truth about the ledger.
    Only statements, each closed by [exact]; proofs live in Lemmas/. *)
 From Model Require Import Examples.
-From Lemmas Require Import StatusLemmas LedgerLemmas HistoryLemmas HistoryLemmas2 HistoryLemmas3.
+From Lemmas Require Import StatusLemmas LedgerLemmas HistoryLemmas HistoryLemmas2 HistoryLemmas3 HistoryLemmas4.
 From Corr Require Import Chain.
 Open Scope Z_scope.
 
@@ -102,6 +102,16 @@ Theorem C17_burns_history : forall h s fs s',
   forall burn a t, get_bal (bal s') a t = get_bal (bal s) a t + rows_effect burn a t (burn_rows fs).
 Proof. exact apply_factoid_block_history. Qed.
 Print Assumptions C17_burns_history.
+(* the two passes of the legacy PEG bank (Lemmas/HistoryLemmas4.v): the first pass debits a PEG request and leaves
+   its row as inserted; the second writes to_amount := yield and outputs := [(sender, refund)] and credits exactly
+   those -- the accounting equation closes for any yield.  (Why the chain theorem still excludes conversions into
+   PEG: a batch dropped because one of its conversions overflows is nevertheless paid by the bank pass --
+   bank_pays_a_dropped_peg_batch, mirrored closed-era behaviour, DESIGN section 15.) *)
+Check record_batch_history2.
+Check record_peg_requests_history.
+Check hist_ok_record_peg_requests.
+Check bank_era_hist_ok_example.
+Check bank_pays_a_dropped_peg_batch.
 (* developer rewards and staking payouts: Lemmas/HistoryLemmas.v *)
 Check developers_payouts_history.
 Check snapshot_payouts_history.
